@@ -7,7 +7,9 @@ import (
 	"fmt"
 	"strings"
 
+	"github.com/idena-network/idena-go/blockchain/fee"
 	"github.com/idena-network/idena-go/blockchain/types"
+	"github.com/idena-network/idena-go/blockchain/validation"
 	"verif/mc/chainmc"
 	"verif/mc/replica"
 	"verif/mc/world"
@@ -28,6 +30,13 @@ type Action struct {
 	MaxPath int
 	// When, if set, enables the action only in states whose key contains one of these substrings (e.g. " per=2 ")
 	When []string
+	// Direct: the transactions are handed to the building path (VerifProposeBlockWithTxs, derived from
+	// ProposeBlock) instead of the pool - the list a pool can hand over after its own filtering, e.g. with a
+	// nonce gap left by a dropped transaction. NonceD shifts the nonce of every template transaction.
+	Direct bool
+	NonceD int
+	// TipsDna > 0: every template transaction is re-signed carrying that many DNA of tips
+	TipsDna int64
 }
 
 // Trans describes one transition while it is being executed.
@@ -250,6 +259,44 @@ func (m *Model) oneBlock(scn int, st *chainmc.State, a Action, c *chainmc.Ctx) *
 		for _, ti := range a.Tmpl {
 			t.Txs = append(t.Txs, m.Menu[ti].Build(b))
 		}
+		if a.Direct {
+			// only transactions that the pool would admit in this state are legitimate input of the
+			// building path (a transaction that fails admission never reaches a proposer's list)
+			if ro, err := A.App.Readonly(A.Chain.Head.Height()); err == nil {
+				minFee := fee.GetFeePerGasForNetwork(ro.ValidatorsCache.NetworkSize())
+				for i, tx := range t.Txs {
+					if tx != nil && validation.ValidateTx(ro, tx, minFee, validation.InboundTx) != nil {
+						t.Txs[i] = nil
+					}
+				}
+			}
+		}
+		if a.NonceD != 0 {
+			for i := range t.Txs {
+				t.Txs[i] = world.WithNonce(t.Txs[i], a.NonceD)
+			}
+		}
+		if a.TipsDna > 0 {
+			for i := range t.Txs {
+				t.Txs[i] = world.WithTips(t.Txs[i], replica.Dna(a.TipsDna))
+			}
+		}
+		if a.Direct {
+			var txs []*types.Transaction
+			for _, tx := range t.Txs {
+				if tx != nil {
+					txs = append(txs, tx)
+				}
+			}
+			if len(txs) == 0 {
+				return nil
+			}
+			replica.SetTime(now)
+			A.Activate()
+			t.Block = A.Chain.VerifProposeBlockWithTxs([]byte{}, txs).Block
+			c.Count("direct_proposals", 1)
+			c.Outcome(fmt.Sprintf("direct offered=%d included=%d", len(txs), len(t.Block.Body.Transactions)))
+		} else {
 		t.Admit = world.Submit(A, t.Txs)
 		admitted := 0
 		for _, e := range t.Admit {
@@ -262,6 +309,7 @@ func (m *Model) oneBlock(scn int, st *chainmc.State, a Action, c *chainmc.Ctx) *
 		t.Block = A.Propose(now)
 		c.Count("txs_included", len(t.Block.Body.Transactions))
 		c.Outcome(fmt.Sprintf("offered=%d admitted=%d included=%d flags=%d", len(t.Txs), admitted, len(t.Block.Body.Transactions), t.Block.Header.Flags()))
+		}
 	}
 	if c.Check && m.H.Proposed != nil {
 		if !m.H.Proposed(t) {
@@ -397,6 +445,21 @@ func (m *Model) StdDrive() {
 		Action{Name: "run-ceremony-to-epoch-end", Macro: "epoch", Expand: true},
 		Action{Name: "block-proposed-by-pool-P", By: "P", Expand: true},
 	)
+}
+
+// GapSingles appends, for every menu template, a leaf action that hands the transaction with the next-but-one
+// nonce directly to the building path (what is left of a sender's run when its first transaction was dropped).
+func (m *Model) GapSingles() {
+	for i := range m.Menu {
+		m.Acts = append(m.Acts, Action{Name: "gap:" + m.Menu[i].Name, Tmpl: []int{i}, Direct: true, NonceD: 1})
+	}
+}
+
+// TipsSingles appends, for every menu template, a leaf action offering the transaction with 1 DNA of tips.
+func (m *Model) TipsSingles() {
+	for i := range m.Menu {
+		m.Acts = append(m.Acts, Action{Name: "tips:" + m.Menu[i].Name, Tmpl: []int{i}, TipsDna: 1})
+	}
 }
 
 // Singles appends every menu template as a leaf action; Pairs every ordered pair.
